@@ -114,6 +114,10 @@ def finish(pid, tier, seed, stats, t0, rule, assumptions, exhaustive=True, trace
             fresh.setdefault(v['sig'], []).append(v)
     for sig, (k, n) in known_hit.items():
         print('KNOWN-FINDING: property=%s %s [signature %s, %d occurrences this run]' % (pid, k.get('what', ''), sig, n))
+    if os.environ.get('VERIF_LIST'):
+        for sig, vs in sorted(fresh.items()):
+            print('SIG %5d %s' % (len(vs), sig))
+        max_report = 0
     reported = 0
     for sig, vs in fresh.items():
         if reported >= max_report:
